@@ -1635,7 +1635,16 @@ type ProposalMessage struct {
 
 // ValidateBasic performs basic validation.
 func (m *ProposalMessage) ValidateBasic() error {
-	return m.Proposal.ValidateBasic()
+	if err := m.Proposal.ValidateBasic(); err != nil {
+		return err
+	}
+	// The part count sizes the bit array the reactor allocates for the peer (SetHasProposal)
+	// before the proposal's signature is ever looked at.
+	if m.Proposal.BlockID.PartSetHeader.Total > types.MaxBlockPartsCount {
+		return fmt.Errorf("proposal's part set total is too big: %d, max: %d",
+			m.Proposal.BlockID.PartSetHeader.Total, types.MaxBlockPartsCount)
+	}
+	return nil
 }
 
 // String returns a string representation.
